@@ -270,13 +270,12 @@ func (t CollectionPath) Of(i Item) Item {
 			return nil
 		})
 	}
-	if OfActor.Contains(t) && ActorTypes.Contains(i.GetType()) {
-		OnActor(i, func(a *Actor) error {
-			it = t.ofActor(a)
-			return nil
-		})
-		// the actor's own collection must not be replaced by the generic Object lookup below
-		return it
+	if OfActor.Contains(t) {
+		// like AddTo, decide by the item being an Actor, not by the value of its Type property
+		if a, err := ToActor(i); err == nil {
+			// the actor's own collection must not be replaced by the generic Object lookup below
+			return t.ofActor(a)
+		}
 	}
 	OnObject(i, func(o *Object) error {
 		it = t.ofObject(o)
